@@ -1,35 +1,35 @@
 /-
-  Model/Json.lean — JSON values as serde_json produces / accepts them.
+  Model/JVal.lean — JSON values as serde_json produces / accepts them.
   Numbers: `int` (JSON integer literal, any size) or `float` (a finite number printed with a
   fraction/exponent; kept abstract as its text). Objects are association lists in document order.
 -/
 import TsRsVerif.Model.Text
 namespace TsRs
 
-inductive Json where
+inductive JVal where
   | null
   | bool (b : Bool)
   | int (i : Int)
   | float (repr : Str)
   | str (s : Str)
-  | arr (items : List Json)
-  | obj (fields : List (Str × Json))
+  | arr (items : List JVal)
+  | obj (fields : List (Str × JVal))
   deriving Repr, Inhabited
 
-namespace Json
+namespace JVal
 
-def isObj : Json → Bool
+def isObj : JVal → Bool
   | .obj _ => true
   | _ => false
 
-def lookup (k : Str) : List (Str × Json) → Option Json
+def lookup (k : Str) : List (Str × JVal) → Option JVal
   | [] => none
   | (k', v) :: rest => if k' = k then some v else lookup k rest
 
-def keys (kvs : List (Str × Json)) : List Str := kvs.map (·.1)
+def keys (kvs : List (Str × JVal)) : List Str := kvs.map (·.1)
 
 mutual
-def beq : Json → Json → Bool
+def beq : JVal → JVal → Bool
   | .null, .null => true
   | .bool a, .bool b => a == b
   | .int a, .int b => a == b
@@ -38,15 +38,15 @@ def beq : Json → Json → Bool
   | .arr a, .arr b => beqList a b
   | .obj a, .obj b => beqFields a b
   | _, _ => false
-def beqList : List Json → List Json → Bool
+def beqList : List JVal → List JVal → Bool
   | [], [] => true
   | a :: as, b :: bs => beq a b && beqList as bs
   | _, _ => false
-def beqFields : List (Str × Json) → List (Str × Json) → Bool
+def beqFields : List (Str × JVal) → List (Str × JVal) → Bool
   | [], [] => true
   | (k, a) :: as, (k', b) :: bs => k == k' && beq a b && beqFields as bs
   | _, _ => false
 end
 
-end Json
+end JVal
 end TsRs
